@@ -8,7 +8,7 @@ VERIF = os.path.dirname(os.path.dirname(os.path.abspath(__file__)))
 
 CHECKS = {
     "C01": dict(
-        technique="runtime monitor: acceptance oracle (independent model computes the tag the specification defines for the RECEIVED key/nonce/AAD/ciphertext; library must accept iff the received tag equals it) over forged and re-authenticated tuples",
+        technique="runtime monitor: acceptance oracle (independent model computes the tag the specification defines for the RECEIVED key/nonce/AAD/ciphertext; library must accept iff the received tag equals it) over forged and re-authenticated tuples, with neighbouring decoy objects created between the judged ones",
         text=("For every case (mode, cipher, key, nonce, mac_len, AAD segments, plaintext) over the full parameter grids - GCM (AES-128/192/256, nonce 1..255 bytes, mac_len 4..16), "
               "CCM (nonce 7..13, mac_len 4..16, lengths declared/undeclared, 2- and 6-byte AAD headers), EAX over six ciphers, SIV (32/48/64-byte keys, 0..4 components, with/without "
               "nonce), OCB (nonce 1..15, mac_len 8..16), ChaCha20-Poly1305 (8/12/24-byte nonces), KW, KWP - the library's sealed tuple is compared with the model and then ~95 received "
@@ -21,7 +21,7 @@ CHECKS = {
         note="Trusted: ref/modes.py + ref/ciphers.py (FIPS/RFC/NIST vectors, Wycheproof by the model alone). Messages <= 600 bytes quick, 1-64 KiB by composition in thorough; forgery by luck is not exercised.",
         ref="DESIGN.md §4 C01"),
     "C02": dict(
-        technique="runtime monitor: reference-model oracle (independent pure-Python ciphers and modes; model mode logic composed over the library's single-block ECB for bulk sizes; optional openssl CLI) over key/nonce/parameter/length grids",
+        technique="runtime monitor: reference-model oracle (independent pure-Python ciphers and modes; model mode logic composed over the library's single-block ECB for bulk sizes; optional openssl CLI) over key/nonce/parameter/length grids, seek/encrypt histories on one object and neighbouring decoy objects",
         text=("Library ciphertexts and tags are compared byte for byte with ref/ciphers.py + ref/modes.py: single-block ECB of every cipher for every legal key size (AES with "
               "and without AES-NI, 3DES parity/degenerate-key rules, ARC2 effective_keylen) on structured and random blocks; every mode each cipher offers with boundary lengths "
               "(0, 1, block+-1, 8 blocks+-1, 64+-1) on the model path and 1 KiB..4 MiB by composition (the model's mode logic over the library's single-block ECB: a different "
@@ -45,7 +45,7 @@ CHECKS = {
         note="Trusted: hashlib (OpenSSL) and ref/hashes.py self-tests (RFC/NIST vectors); MD5/SHA-1/SHA-2/BLAKE2 have hashlib as the only oracle. Messages up to 2 MiB; bit-length counter carries beyond 2^32 bits are not reached.",
         ref="DESIGN.md §4 C03"),
     "C04": dict(
-        technique="runtime monitor: acceptance oracle with independent verifiers (RFC 8017, FIPS 186-4, RFC 6979, RFC 8032 models decide the validity of ANY candidate) + byte equality for deterministic / tape-driven signing + repeatability checks",
+        technique="runtime monitor: acceptance oracle with independent verifiers (RFC 8017, FIPS 186-4, RFC 6979, RFC 8032 models decide the validity of ANY candidate) + byte equality for deterministic / tape-driven signing + repeatability checks + long-lived scheme objects driven through mixed-parameter histories",
         text=("Four demands per scheme (RSASSA-PKCS1-v1_5, RSASSA-PSS, DSA and ECDSA in FIPS and RFC 6979 modes with binary/DER encodings, Ed25519/ctx/ph, Ed448/ph): soundness - "
               "library accepts => the model says valid, for every candidate; completeness on everything sign() produced and on valid signatures the library did not produce "
               "(constructed x(R) >= n cases, Wycheproof tcId 285); byte equality with the model for the deterministic schemes and, under an entropy tape, for PSS salts and FIPS "
@@ -70,7 +70,7 @@ CHECKS = {
         note="Trusted: ref/primes.py (BPSW), ref/ec.py, ref/keyfiles.py encoders. Keys <= 3072 bits. Four known findings (public sections / PKCS#8 publicKey field ignored by importers) are listed in known_findings.json.",
         ref="DESIGN.md §4 C05"),
     "C06": dict(
-        technique="runtime monitor: reference-model oracle (exact affine Weierstrass / Edwards / Montgomery arithmetic on Python integers, SP 800-56A and RFC 7748 secrets) over point/scalar/role grids with replayed blinding seeds",
+        technique="runtime monitor: reference-model oracle (exact affine Weierstrass / Edwards / Montgomery arithmetic on Python integers, SP 800-56A and RFC 7748 secrets) over point/scalar/role grids with replayed blinding seeds and in-place operation histories on one object",
         text=("Every EccPoint/EccXPoint operator (+ += - * *= rmul == != double copy xy is_point_at_infinity point_at_infinity) on all nine curves is compared with EXACT "
               "coordinates from ref/ec.py: operands G, kG, points lifted from random x, the neutral element built four ways, P+P, P+(-P), P+neutral, all Edwards torsion points, "
               "Montgomery low-order and twist u, each built by several routes (constructor, sum with projective representation, copy, negation); scalars 0, 1, 2, n+-k, 2n, 2n+5, "
@@ -116,7 +116,7 @@ CHECKS = {
         note="Trusted: nothing beyond equality with the library's own canonical result (tied to the standards by C02/C03). Only documented buffer types are driven; partial overlap of input and output is outside the statement.",
         ref="DESIGN.md §4 C09"),
     "C10": dict(
-        technique="runtime monitor: online trace-specification checker (executable automata transcribed from the documentation stepped alongside the real object over exhaustive and random call sequences)",
+        technique="runtime monitor: online trace-specification checker (executable automata transcribed from the documentation stepped alongside the real object over exhaustive and random call sequences, output placements) + linearizability check of two-thread call/return histories on one object against the automaton",
         text=("For each object class an automaton written from Doc/src/cipher/modern.rst, classic.rst, aead.png, ocb_mode.png, siv.png, the hash pages and the method docstrings (not "
               "from the implementation's _next sets) is stepped alongside the real object: a permitted call must not raise and its output must equal the one-shot computation by a "
               "fresh object over the data accepted so far; a forbidden call must raise TypeError and leave every later observation unchanged ('as if not made'); CCM with declared "
@@ -150,7 +150,7 @@ CHECKS = {
         note="Trusted: ref/kdf.py, ref/hashes.py, ref/modes.py self-tests plus agreement with the stdlib oracles. Sizes up to a few KiB, scrypt N<=16384, bcrypt cost<=8.",
         ref="DESIGN.md §4 C12"),
     "C13": dict(
-        technique="runtime monitor: round-trip + reference-model oracle for encoders; for decoders a totality/strictness oracle (exception class, independent strict DER classifier) and a logical step counter (sys.monitoring) as time bound",
+        technique="runtime monitor: round-trip + reference-model oracle for encoders; for decoders a totality/strictness oracle (exception class, independent strict DER classifier) and a logical step counter (sys.monitoring) as time bound; encoder probes re-run after hostile decodes",
         text=("(A) encoders: DerInteger over boundary values up to 4096 bits, DerObjectId with arcs to 2^70, nested DerSequence, OCTET/BIT STRING, NULL, BOOLEAN, SET OF, explicit/"
               "implicit tags 0..30 must round-trip and equal ref/der.py's writer; all 196605 (block size 1..255 x data length 0..2b x 3 styles) paddings vs ref/padding.py; RFC 1751; "
               "long_to_bytes/bytes_to_long; PEM clear/encrypted and PKCS8 wrap/unwrap cross-decoded by ref/keyfiles.py.  (B) 34 decoder variants (every Der*.decode strict on/off, "
@@ -164,7 +164,7 @@ CHECKS = {
         note="Trusted: ref/der.py, ref/keyfiles.py, ref/padding.py. The step counter cannot see work inside a single C call (the PBES KDF entry points are wrapped for that reason). Strictness is judged on the outermost structure and direct members. One trivial known finding (PEM of empty data).",
         ref="DESIGN.md §4 C13"),
     "C14": dict(
-        technique="runtime monitor: differential oracle (exact Python integers; primes certified by construction) over hostile operand workloads on the three integer back-ends",
+        technique="runtime monitor: differential oracle (exact Python integers; primes certified by construction) over hostile operand workloads and live-object pool histories (every live Integer re-read after every step) on the three integer back-ends",
         text=("Every operation of the Integer API is executed on IntegerGMP, IntegerCustom and IntegerNative with operands concentrated on limb "
               "boundaries, all-ones/single-bit limbs, negatives, operands equal to the modulus, NIST/curve primes (special reductions in mont.c) and "
               "compared with exact Python integer arithmetic, including the exception outcome where no result exists; modular square roots are "
@@ -193,7 +193,7 @@ CHECKS = {
         note="Trusted: nothing beyond equality of transcripts; requires a CPU with AES-NI and PCLMULQDQ (else inconclusive). Held only on generated inputs.",
         ref="DESIGN.md §4 C16"),
     "C17": dict(
-        technique="sanitizer monitor: AddressSanitizer+UBSan(memory) build of the C sources plus mprotect guard pages around caller buffers, driven by a length/alignment/aliasing/lifecycle sweep",
+        technique="sanitizer monitor: AddressSanitizer+UBSan(memory) build of the C sources plus mprotect guard pages around caller buffers, driven by a length/alignment/aliasing/lifecycle sweep, constructor parameters beyond their limits and wide-item memoryviews",
         text=("All 42 extension modules are rebuilt from the working tree with -fsanitize=address and the memory-related UBSan checks and loaded into the stock "
               "interpreter (LD_PRELOAD, PYTHONMALLOC=malloc).  A sweep drives every public entry point that reaches native code (each cipher x mode incl. AEADs and "
               "KW/KWP, stream ciphers, every hash/XOF/MAC, Poly1305, GHASH both variants, strxor, scrypt, bcrypt, PKCS#1 decoders, modexp, all EC operations on nine "
@@ -215,7 +215,7 @@ CHECKS = {
         note="Trusted: entropy reaches the library only via randfunc / Crypto.Random (os.urandom captured before import). Exact uniformity decided for ranges <= 600 and <= 16 bits; cryptographic sizes only via boundary tapes.",
         ref="DESIGN.md §4 C18"),
     "C19": dict(
-        technique="race detector + metamorphic history monitor: ThreadSanitizer build under 2-16 threads, per-thread transcripts vs solo runs, interleaved-vs-isolated programs, argument snapshots, first-use races with sys.monitoring yield injection",
+        technique="race detector + metamorphic history monitor: ThreadSanitizer build under 2-16 threads, per-thread transcripts vs solo runs, interleaved-vs-isolated programs, argument snapshots (every buffer argument as bytearray/memoryview), native and Python-layer hammers with per-thread parameters, first-use races with sys.monitoring yield injection",
         text=("(a) the C sources are rebuilt with -fsanitize=thread and 2/4/8/16 Python threads (switch interval 1us; ctypes releases the GIL so native code really runs in "
               "parallel) run the same kinds of objects - all hashes incl. MD2/MD4/RIPEMD, XOFs, MACs, every block cipher and mode, AEADs, stream ciphers, KDFs, modexp, EC "
               "on nine curves, RSA/DSA/ECDSA/EdDSA sign+verify and ECDH/HPKE with shared read-only key objects, shared points as operands - on different data: any data-race "
@@ -228,7 +228,7 @@ CHECKS = {
         note="Trusted: TSan's interception of the GIL hand-offs (measured silent on legitimate workloads). A race needs both accesses in one run: 'no race observed in K runs'. Sharing one mutable object between threads is outside the statement and never done.",
         ref="DESIGN.md §4 C19"),
     "C20": dict(
-        technique="runtime monitor: reference-model oracle (independent GF(2^128) + Lagrange) over entropy-tape-driven split/combine executions",
+        technique="runtime monitor: reference-model oracle (independent GF(2^128) + Lagrange) over entropy-tape-driven split/combine executions + coefficient freshness across fork()",
         text=("Every split() runs under a recorded entropy tape; the monitor interpolates the returned shares with an "
               "independent GF(2^128) model and demands one polynomial of degree k-1 with constant term = secret whose "
               "higher coefficients are exactly the tape reads; all k-subsets and orderings (k<=n<=6 exhaustively, sampled up to n=257) "
